@@ -57,6 +57,31 @@ Fixpoint nocross_from (pend : Z) (ch : list tag) (evs : list event) (tr : list (
 Definition nocross (evs : list event) (tr : list (list obs)) : bool :=
   nocross_from 0 [] evs tr.
 
+(* The realtime side's pending controllers as the records imply them: an
+   offered controller enters at the back, every delivered midi-bind removes the
+   front.  (`pending_before` of tools/props/C20.py; the classifier compares it
+   with the controllers whose answer is outstanding.  The model driver prints
+   it and whether it is what the model's ring holds.) *)
+Fixpoint pending_from (P : list Z) (ch : list tag) (evs : list event) (tr : list (list obs)) : list Z :=
+  match evs, tr with
+  | e :: es, r :: rs =>
+      match e with
+      | EMap _ _ | EUnmap _ _ | EClear => pending_from P (ch ++ op_tags r) es rs
+      | ECC _ _ _ _ =>
+          pending_from (P ++ flat_map (fun o => match o with OU i => [i] | _ => [] end) r) ch es rs
+      | EDelN => pending_from P (ch ++ ans_tags r) es rs
+      | EDelR =>
+          match ch with
+          | [] => pending_from P ch es rs
+          | t :: ch' => pending_from (if is_TB t then tl P else P) ch' es rs
+          end
+      end
+  | _, _ => P
+  end.
+
+Definition pending_of (evs : list event) (tr : list (list obs)) : list Z :=
+  pending_from [] [] evs tr.
+
 (* 14-bit composition as the text states it: the coarse controller supplies
    bits 7..13, the fine controller bits 0..6 *)
 Definition compose14 (coarse : bool) (v old : Z) : Z :=
